@@ -29,7 +29,33 @@ STREAM_SPECS = {
     'overlay':    ({'enc_mode': 6, 'hierarchical_levels': 3, 'enable_overlays': 1, 'logical_processors': 2}, {'kind': 'moving', 'seed': 12}, 18, (64, 64)),
     'lowdelay':   ({'enc_mode': 7, 'pred_structure': 1, 'logical_processors': 1}, {'kind': 'moving', 'seed': 13}, 7, (72, 66)),
     'mfmv_wide':  ({'enc_mode': 6, 'enable_mfmv': 1, 'logical_processors': 2}, {'kind': 'moving', 'seed': 14}, 9, (320, 192)),
-    'superres':   ({'enc_mode': 6, 'superres_mode': 1, 'superres_denom': 12, 'superres_kf_denom': 12, 'logical_processors': 1}, {'kind': 'moving', 'seed': 15}, 4, (128, 128)),
+    'superres':   ({'enc_mode': 6, 'superres_mode': 1, 'superres_denom': 12, 'superres_kf_denom': 12, 'logical_processors': 1, 'enable_tpl_la': 0},   # TPL off: superres + TPL crashes the encoder (KF-C11-superres-tpl)
+                   {'kind': 'moving', 'seed': 15}, 4, (128, 128)),
+}
+
+# streams produced by the libaom 3.6.0 encoder (worlds/aomenc.cc): coding tools and syntax combinations the SVT encoder never emits.
+# (content, n, (w, h), bit depth, encoder settings, aom_codec_set_option key/values)
+AOM_SPECS = {
+    'aom_default':  ({'kind': 'moving', 'seed': 31}, 14, (128, 128), 8, {'lag': 12}, {'cpu-used': 3}),
+    'aom_rt':       ({'kind': 'moving', 'seed': 32}, 8, (128, 96), 8, {'lag': 0, 'usage': 1}, {'cpu-used': 7}),
+    'aom_screen':   ({'kind': 'text', 'seed': 33}, 5, (128, 64), 8, {'lag': 0}, {'cpu-used': 4, 'tune-content': 'screen', 'enable-palette': 1, 'enable-intrabc': 1}),
+    'aom_grain':    ({'kind': 'moving', 'seed': 34}, 6, (64, 64), 8, {'lag': 4}, {'cpu-used': 5, 'film-grain-test': 3}),
+    'aom_grain10':  ({'kind': 'mix', 'seed': 35}, 5, (64, 64), 10, {'lag': 0}, {'cpu-used': 5, 'film-grain-test': 11}),
+    'aom_tiles':    ({'kind': 'moving', 'seed': 36}, 6, (256, 192), 8, {'lag': 4}, {'cpu-used': 5, 'tile-columns': 1, 'tile-rows': 1}),
+    'aom_10bit':    ({'kind': 'mix', 'seed': 37}, 6, (96, 64), 10, {'lag': 4}, {'cpu-used': 4}),
+    'aom_aq':       ({'kind': 'mix', 'seed': 38}, 8, (128, 128), 8, {'lag': 4}, {'cpu-used': 4, 'aq-mode': 1, 'deltaq-mode': 1}),
+    'aom_cyclic':   ({'kind': 'moving', 'seed': 39}, 8, (128, 128), 8, {'lag': 0, 'usage': 1, 'end_usage': 1}, {'cpu-used': 6, 'aq-mode': 3}),
+    'aom_lossless': ({'kind': 'mix', 'seed': 40}, 3, (64, 64), 8, {'lag': 0}, {'cpu-used': 5, 'lossless': 1}),
+    'aom_sb128':    ({'kind': 'moving', 'seed': 41}, 6, (192, 128), 8, {'lag': 4}, {'cpu-used': 4, 'sb-size': 128}),
+    'aom_sb64':     ({'kind': 'hgrad', 'seed': 42}, 5, (192, 128), 8, {'lag': 4, 'min_q': 4, 'max_q': 12}, {'cpu-used': 3, 'sb-size': 64}),
+    'aom_superres': ({'kind': 'moving', 'seed': 43}, 5, (128, 128), 8, {'lag': 0, 'superres_mode': 1, 'superres_denom': 12, 'superres_kf_denom': 12}, {'cpu-used': 5}),
+    'aom_errres':   ({'kind': 'moving', 'seed': 44}, 7, (96, 96), 8, {'lag': 0, 'error_resilient': 1}, {'cpu-used': 5}),
+    'aom_odd':      ({'kind': 'mix', 'seed': 45}, 5, (70, 66), 8, {'lag': 4}, {'cpu-used': 4}),
+    'aom_highq':    ({'kind': 'noise', 'seed': 46}, 4, (64, 64), 8, {'lag': 0, 'min_q': 0, 'max_q': 4}, {'cpu-used': 4}),
+    'aom_lowq':     ({'kind': 'moving', 'seed': 47}, 8, (128, 128), 8, {'lag': 6, 'min_q': 50, 'max_q': 63}, {'cpu-used': 2}),
+    'aom_alltools': ({'kind': 'moving', 'seed': 48}, 20, (128, 128), 8, {'lag': 16, 'min_q': 20, 'max_q': 45}, {'cpu-used': 1, 'enable-dist-wtd-comp': 1, 'enable-interintra-comp': 1, 'enable-dual-filter': 1, 'enable-masked-comp': 1, 'enable-diff-wtd-comp': 1, 'enable-interinter-wedge': 1,
+                      'enable-interintra-wedge': 1, 'enable-smooth-interintra': 1, 'enable-obmc': 1, 'enable-warped-motion': 1, 'enable-global-motion': 1, 'enable-tx64': 1, 'enable-flip-idtx': 1, 'enable-ref-frame-mvs': 1, 'enable-onesided-comp': 1}),
+    'aom_alltools10': ({'kind': 'mix', 'seed': 49}, 12, (96, 96), 10, {'lag': 8, 'min_q': 10, 'max_q': 40}, {'cpu-used': 2, 'enable-dist-wtd-comp': 1, 'enable-interintra-comp': 1, 'enable-dual-filter': 1, 'enable-masked-comp': 1, 'enable-tx64': 1, 'aq-mode': 2, 'enable-palette': 1}),
 }
 
 def make_streams(names, ck=None):
@@ -37,6 +63,11 @@ def make_streams(names, ck=None):
     os.makedirs(STREAM_DIR, exist_ok=True)
     cases, paths = [], {}
     for nm in names:
+        if nm in AOM_SPECS:
+            cont, n, wh, bd, encs, opts = AOM_SPECS[nm]
+            pre = os.path.join(STREAM_DIR, '%s_%d' % (nm, os.getpid()))
+            c = dict({'world': 'aomenc', 'content': dict(cont, w=wh[0], h=wh[1], n=n, bd=bd), 'options': {k: str(v) for k, v in opts.items()}, 'dump': pre, 'wall_timeout': 240}, **encs)
+            cases.append(c); paths[nm] = {'path': pre + '.tu', 'w': wh[0], 'h': wh[1], 'bd': bd, 'n': n}; continue
         cfgo, cont, n, wh = STREAM_SPECS[nm]
         c = mk(None, dict(cfgo, recon_enabled=0), cont, n, wh, oracles={'decode': 1, 'parse': 1, 'recon_compare': 0})
         pre = os.path.join(STREAM_DIR, '%s_%d' % (nm, os.getpid())); c['dump'] = pre
@@ -46,14 +77,21 @@ def make_streams(names, ck=None):
     for nm, r in zip(names, rs):
         if r.get('outcome') == 'ok' and os.path.exists(paths[nm]['path']) and not any(f['name'].startswith('decode_error') for f in r.get('failures', [])):
             ok[nm] = paths[nm]
+            if nm in AOM_SPECS:
+                h = r.get('hdr_tools') or {}
+                ok[nm] = dict(paths[nm], hdr_tools=h, options_rejected=r.get('options_rejected'), lr=int(bool(h.get('loop_restoration'))), superres=int(bool(h.get('superres'))))
+            else:
+                fr = [f for fl in (r.get('frames') or []) for f in fl if not f.get('se')]
+                ok[nm] = dict(paths[nm], lr=int(any(any(f.get('lr', [])) for f in fr)), superres=int(any(f.get('superres') for f in fr)))
         elif ck:
             ck.ev.notes.append('stream %s not generated: %s %s' % (nm, r.get('outcome'), [f['name'] for f in r.get('failures', [])][:3]))
     return ok
 
 def dec_case(st, threads=1, sim=None, oracles=None, transport=None, extra=None, mem=None):
-    c = {'world': 'dec', 'stream': st['path'], 'w': st['w'], 'h': st['h'], 'bd': st['bd'], 'threads': threads, 'sim': sim or {'policy': 'np', 'seed': 1}, 'oracles': oracles or {}, 'wall_timeout': 60}
+    c = {'world': 'dec', 'stream': st['path'], 'w': st['w'], 'h': st['h'], 'bd': st['bd'], 'threads': threads, 'sim': sim or {'policy': 'np', 'seed': 1}, 'oracles': oracles or {}, 'wall_timeout': 240}
     if transport is not None: c['transport'] = transport
     if mem: c['mem'] = mem
+    c['_lr'] = st.get('lr', 0); c['_superres'] = st.get('superres', 0)   # header-level tools of the stream (for root-cause-level finding predicates)
     if extra: c.update(extra)
     return c
 
@@ -91,11 +129,11 @@ DEC_COMPONENTS = core.COMPONENTS_DEC
 @check('C08')
 def check_c08(tier, seed):
     ck = Check('C08', tier, seed)
-    ck.ev.rule = ('streams produced by simulated encodes under a spread of accepted configurations (8/10-bit, tiles, film grain, restoration+CDEF, SB128, screen content, overlays, low delay, MFMV, superres) decoded by the SVT decoder with threads=1 under the scheduler, '
+    ck.ev.rule = ('streams produced by simulated encodes under a spread of accepted configurations (8/10-bit, tiles, film grain incl. inherited parameters, restoration+CDEF, SB128, screen content, overlays, low delay, MFMV, superres) and streams produced by the libaom encoder (compound/skip modes, segmentation, delta-q, lossless, film-grain test vectors 8/10-bit, error-resilient, superres, SB128, screen content, all-tools) decoded by the SVT decoder with threads=1 under the scheduler, '
                   'is_16bit_pipeline in {0,1}, film grain applied; oracle: same number, order and samples as dav1d; distinct = distinct (stream, decoder configuration)')
-    ck.ev.components = DEC_COMPONENTS; ck.ev.assumptions = ['streams come from the SVT encoder only (libaom encoder ABI not probed)', 'dav1d 1.0.0 via hand-declared ABI']
+    ck.ev.components = DEC_COMPONENTS; ck.ev.assumptions = ['streams come from the SVT encoder (simulated encodes) and from the libaom 3.6.0 encoder (dlopen, ABI probed; kept only when dav1d and the libaom decoder agree)', 'dav1d 1.0.0 via hand-declared ABI']
     core.build('plain'); rng = ck.rng
-    names = list(STREAM_SPECS.keys()) if tier != 'quick' else ['base8', 'tiles2x2', 'ten', 'grain', 'grain_static', 'grain_hold', 'lr_cdef', 'sb128', 'screen', 'overlay', 'lowdelay', 'superres']
+    names = list(STREAM_SPECS.keys()) + list(AOM_SPECS) if tier != 'quick' else ['base8', 'tiles2x2', 'ten', 'grain', 'grain_static', 'grain_hold', 'lr_cdef', 'sb128', 'screen', 'overlay', 'lowdelay', 'superres'] + list(AOM_SPECS)
     st = make_streams(names, ck)
     cases = []
     for nm, s in st.items():
@@ -105,6 +143,8 @@ def check_c08(tier, seed):
     for c, r in zip(cases, rs):
         ck.ev.add_run(c, r, (c['_stream'], c['is_16bit_pipeline']) if r.get('outcome') == 'ok' and r.get('npictures') else None)
         ck.ev.probe('stream:' + c['_stream'])
+        for k, n in ((st[c['_stream']].get('hdr_tools') or {}).items() if c['is_16bit_pipeline'] == 0 else []):
+            if n and k != 'parse_errors': ck.ev.probe('aom_hdr:' + k)
         for v in relabel(single_violations(c, r, 'plain'), 'C08', ('TERM', 'CRASH')):
             v.case = inline_stream(v.case); ck.add(v, 'single_dec')
     rc = ck.finish(); cleanup_streams(); return rc
@@ -142,12 +182,13 @@ def check_c09(tier, seed):
                   'oracle: pictures byte-identical to the single-threaded result, no ASan report, no DEADLOCK/LIVELOCK, deinit + deinit_handle return with all workers joined and the allocation ledger empty; distinct = distinct (stream, threads, decision trace)')
     ck.ev.components = DEC_COMPONENTS; ck.ev.assumptions = ['instruction-level data races on volatile flags are outside the model (orderings of whole segments between scheduling points are explored)']
     variant = 'asan'; core.build(variant); core.build('plain'); rng = ck.rng
-    names = ['base8', 'tiles2x2', 'tiles1x2', 'tiles2x1', 'lr_cdef', 'mfmv_wide'] if tier == 'quick' else ['base8', 'tiles2x2', 'tiles1x2', 'tiles2x1', 'tiles1x4', 'tiles4x2', 'lr_cdef', 'mfmv_wide', 'sb128', 'grain', 'superres', 'ten', 'overlay']
+    names = (['base8', 'tiles2x2', 'tiles1x2', 'tiles2x1', 'lr_cdef', 'mfmv_wide', 'aom_default', 'aom_tiles', 'aom_superres', 'aom_lowq', 'aom_cyclic', 'aom_grain', 'aom_alltools10'] if tier == 'quick'
+             else ['base8', 'tiles2x2', 'tiles1x2', 'tiles2x1', 'tiles1x4', 'tiles4x2', 'lr_cdef', 'mfmv_wide', 'sb128', 'grain', 'superres', 'ten', 'overlay'] + list(AOM_SPECS))
     st = make_streams(names, ck)
     fams = []
     for nm, s in st.items():
         base = dec_case(s, 1, extra={'_stream': nm}); fam = [base]
-        for k in range(3 if tier == 'quick' else 10):
+        for k in range(4 if tier == 'quick' else 10):
             th = rng.choice([2, 3, 4, 8] if tier == 'quick' else [2, 3, 4, 8, 16])
             fam.append(dec_case(s, th, sim=dict(gen.schedule(rng, horizon=3000, nthreads=th + 1, allow_buggify=True), step_limit=30000000), extra={'_stream': nm}))
         fams.append(fam)
